@@ -39,3 +39,70 @@ Example C06_mpeg1audio_example :
    end) = [[(65534, 60, 0, true); (65535, 44, 0, true)];
            [(0, 60, 0, true); (1, 44, 0, true); (2, 60, 1152, true); (3, 44, 1152, true)]].
 Proof. vm_compute. reflexivity. Qed.
+
+(* ---- the translated kernels (tools/go2coq, regenerated from the Go source on every run) ----
+   The integer formulas of rtpmpeg1audio/encoder.go - lenAggregated (n := 4 + len(frame); n += len(fr), as a loop over the
+   translated statements), the aggregation test lenAggregated(batch, frame) <= PayloadMaxSize, the writeBatch dispatch
+   len(frames) != 1 || lenAggregated(frames, nil) < PayloadMaxSize, the fragment budget PayloadMaxSize - 4, the fragment
+   count packetCount(avail, len(frame)), le = len(frame) - pos on the last fragment, the size 4+le of a fragment packet,
+   the offset bytes byte(pos >> 8) / byte(pos), pos := 0 and pos += copy(...), the last-fragment test, Marker: true,
+   n := 4 of writeAggregated, the two e.sequenceNumber++, timestamp += uint32(h.SampleCount()) - ARE the formulas of
+   Model.len_agg / batch_loop / write_batch / write_frag / frag_pkts / be16 / write_agg / batch_samples. *)
+From Coq Require Import ZArith.
+From GVL Require Import Chunks.
+From GVG Require Import Kern.
+From GV_mpeg1audio Require Import BridgeLib Bridge.
+Open Scope Z_scope.
+
+Theorem C06_mpeg1audio_kernels_are_the_code :
+  forall (max : N) (batch : list bytes) (f p : bytes) (i pc s ts sc pos : N),
+  (5 <= max)%N -> Z.of_N max < i64max -> Z.of_N (len_agg batch (Some f)) < i64max ->
+  Z.of_N (pos + nlen p) + 4 < i64max -> (1 <= pc)%N -> Z.of_N pc < i64max ->
+  la_code batch None = Z.of_N (len_agg batch None) /\
+  k_mpeg1audio_agg_fits (la_code batch (Some f)) (Z.of_N max) = (len_agg batch (Some f) <=? max)%N /\
+  k_mpeg1audio_batch_agg (Z.of_N (nlen batch)) (la_code batch None) (Z.of_N max)
+    = (negb (nlen batch =? 1)%N || (len_agg batch None <? max)%N) /\
+  k_mpeg1audio_fr_avail (Z.of_N max) = Z.of_N (max - 4) /\
+  k_mpeg1audio_packetCount (k_mpeg1audio_fr_avail (Z.of_N max)) (Z.of_N (nlen f))
+    = Some (Z.of_N (nlen (chunks (max - 4) f))) /\
+  (forall pre last, chunks (max - 4) f = pre ++ [last] ->
+     k_mpeg1audio_fr_le_last (Z.of_N (nlen f)) (Z.of_N (nlen (concat pre))) = Z.of_N (nlen last)) /\
+  k_mpeg1audio_fr_size (Z.of_N (nlen p)) = Z.of_N (nlen ([0; 0]%N ++ be16 pos ++ p)) /\
+  [k_mpeg1audio_fr_off_hi (Z.of_N pos); k_mpeg1audio_fr_off_lo (Z.of_N pos)] = map Z.of_N (be16 pos) /\
+  k_mpeg1audio_fr_pos0 = Z.of_N 0 /\ k_mpeg1audio_fr_pos_step (Z.of_N pos) (Z.of_N (nlen p)) = Z.of_N (pos + nlen p) /\
+  k_mpeg1audio_fr_last (Z.of_N i) (Z.of_N pc) = (i + 1 =? pc)%N /\
+  k_mpeg1audio_fr_marker = true /\ k_mpeg1audio_wa_n0 = Z.of_N (nlen [0; 0; 0; 0]%N) /\
+  k_mpeg1audio_seq_frag (Z.of_N s) = Z.of_N (seq_next s) /\ k_mpeg1audio_seq_agg (Z.of_N s) = Z.of_N (seq_next s) /\
+  k_mpeg1audio_ts_step (Z.of_N ts) (Z.of_N sc) = Z.of_N ((ts + sc) mod 4294967296).
+Proof. exact Bridge.enc_kernels_are_the_code. Qed.
+Print Assumptions C06_mpeg1audio_kernels_are_the_code.
+
+(* the dispatch of Model.write_batch is that boolean; every packet of Model.frag_pkts carries the translated marker *)
+Theorem C06_mpeg1audio_write_batch_dispatch : forall max batch ts seq,
+  write_batch max batch ts seq =
+  if negb (nlen batch =? 1)%N || (len_agg batch None <? max)%N then Some (write_agg batch ts seq)
+  else match batch with f :: _ => write_frag max f ts seq | [] => None end.
+Proof. exact Bridge.write_batch_dispatch. Qed.
+Print Assumptions C06_mpeg1audio_write_batch_dispatch.
+
+Theorem C06_mpeg1audio_marker_everywhere : forall ts (cs : list bytes) seq pos,
+  Forall (fun p => pmarker p = k_mpeg1audio_fr_marker) (frag_pkts seq ts pos cs).
+Proof. exact Bridge.frag_pkts_marker. Qed.
+Print Assumptions C06_mpeg1audio_marker_everywhere.
+
+(* the translated kernels compute, on the boundaries: a 1450-byte limit leaves 1446 bytes per fragment; an aggregate of
+   exactly 1450 bytes fits, 1451 does not; one frame whose aggregate is 1450 bytes is fragmented, 1449 is sent alone, two
+   frames are always aggregated; 2893 bytes need 3 fragments, 2892 need 2; the last fragment of 2893 bytes has 1 byte;
+   offset 1446 = 0x05A6; 65535++ = 0; the timestamp wraps in uint32; lenAggregated([3 bytes], 1 byte) = 4 + 3 + 1 *)
+Example C06_mpeg1audio_example_kernels :
+  k_mpeg1audio_fr_avail 1450 = 1446 /\ k_mpeg1audio_agg_fits 1450 1450 = true /\ k_mpeg1audio_agg_fits 1451 1450 = false /\
+  k_mpeg1audio_batch_agg 1 1450 1450 = false /\ k_mpeg1audio_batch_agg 1 1449 1450 = true /\
+  k_mpeg1audio_batch_agg 2 1450 1450 = true /\
+  k_mpeg1audio_packetCount (k_mpeg1audio_fr_avail 1450) 2893 = Some 3 /\
+  k_mpeg1audio_packetCount (k_mpeg1audio_fr_avail 1450) 2892 = Some 2 /\
+  k_mpeg1audio_fr_le_last 2893 2892 = 1 /\ k_mpeg1audio_fr_size 1446 = 1450 /\
+  k_mpeg1audio_fr_off_hi 1446 = 5 /\ k_mpeg1audio_fr_off_lo 1446 = 166 /\ k_mpeg1audio_fr_pos_step 1446 1446 = 2892 /\
+  k_mpeg1audio_fr_last 2 3 = true /\ k_mpeg1audio_fr_last 1 3 = false /\
+  k_mpeg1audio_seq_frag 65535 = 0 /\ k_mpeg1audio_ts_step 4294967295 1152 = 1151 /\
+  la_code [[1; 2; 3]%N] (Some [4%N]) = 8.
+Proof. vm_compute. repeat split. Qed.
